@@ -13,7 +13,8 @@ type Value interface{}
 type Ptr struct {
 	obj  int // 0 = nil
 	path []int
-	sym  *Term // optional symbolic final index (64-bit)
+	sym  *Term // optional symbolic index (64-bit) applied after path
+	post []int // path below the symbolic index
 }
 
 type StructV struct{ f []Value }
@@ -95,6 +96,7 @@ type State struct {
 	// bookkeeping carried along a path
 	covers map[string]bool
 	calls  map[string]int // counters (verifrt.Count)
+	dom     map[*Term]uint64 // remaining values of small-range variables (derived from pc)
 	pending []knownRec
 	pknown  []knownRec
 	watch   []watchRec
@@ -129,14 +131,65 @@ func (s *State) Fork() *State {
 		n.calls[k] = v
 	}
 	n.pending, n.pknown, n.watch = s.pending, s.pknown, s.watch
+	if len(s.dom) > 0 {
+		n.dom = make(map[*Term]uint64, len(s.dom))
+		for k, v := range s.dom {
+			n.dom[k] = v
+		}
+	}
 	s.stamp = newStamp() // the parent can no longer write shared objects in place
 	return n
+}
+
+// decide evaluates a condition against the variable domains: 1 always true,
+// 0 always false, -1 undetermined.
+func (s *State) decide(c *Term) int {
+	v := singleVar(c)
+	if v == nil || v == multiVar {
+		return -1
+	}
+	full, ok := fullDom(v)
+	if !ok {
+		return -1
+	}
+	dom, has := s.dom[v]
+	if !has {
+		dom = full
+	}
+	m := domMask(c, v, dom)
+	if m == dom {
+		return 1
+	}
+	if m == 0 {
+		return 0
+	}
+	return -1
+}
+
+func (s *State) refine(c *Term) {
+	v := singleVar(c)
+	if v == nil || v == multiVar {
+		return
+	}
+	full, ok := fullDom(v)
+	if !ok {
+		return
+	}
+	dom, has := s.dom[v]
+	if !has {
+		dom = full
+	}
+	if s.dom == nil {
+		s.dom = map[*Term]uint64{}
+	}
+	s.dom[v] = domMask(c, v, dom)
 }
 
 func (s *State) Assume(c *Term) {
 	if c == TT {
 		return
 	}
+	s.refine(c)
 	// x = k makes earlier facts x != k' (k' != k) redundant
 	if c.op == OpEq && c.a[0].w > 0 && (c.a[0].op == OpConst || c.a[1].op == OpConst) {
 		x, k := c.a[0], c.a[1]
@@ -345,12 +398,12 @@ func mergeVal(g *Term, a, b Value) (Value, bool) {
 		return x, ok && (x == y || (x != x && y != y))
 	case Ptr:
 		y, ok := b.(Ptr)
-		if ok && x.obj == y.obj && pathEq(x.path, y.path) {
+		if ok && x.obj == y.obj && pathEq(x.path, y.path) && pathEq(x.post, y.post) {
 			if x.sym == y.sym {
 				return x, true
 			}
 			if x.sym != nil && y.sym != nil {
-				return Ptr{x.obj, x.path, Ite(g, x.sym, y.sym)}, true
+				return Ptr{x.obj, x.path, Ite(g, x.sym, y.sym), x.post}, true
 			}
 		}
 		return nil, false
@@ -480,7 +533,7 @@ func sameVal(a, b Value) bool {
 		return ok && x == y
 	case Ptr:
 		y, ok := b.(Ptr)
-		return ok && x.obj == y.obj && x.sym == y.sym && pathEq(x.path, y.path)
+		return ok && x.obj == y.obj && x.sym == y.sym && pathEq(x.path, y.path) && pathEq(x.post, y.post)
 	case SliceV:
 		y, ok := b.(SliceV)
 		return ok && x == y
@@ -518,9 +571,169 @@ func mergePC(a, b []*Term) (pc []*Term, g *Term) {
 	return pc, da
 }
 
+// mergeable mirrors mergeVal without building anything.
+func mergeable(a, b Value) bool {
+	switch x := a.(type) {
+	case nil:
+		return b == nil
+	case *Term:
+		y, ok := b.(*Term)
+		return ok && x.w == y.w
+	case *Str:
+		_, ok := b.(*Str)
+		return ok
+	case FloatV:
+		y, ok := b.(FloatV)
+		return ok && (x == y || (x != x && y != y))
+	case Ptr:
+		y, ok := b.(Ptr)
+		return ok && x.obj == y.obj && pathEq(x.path, y.path) && pathEq(x.post, y.post) && (x.sym == y.sym || (x.sym != nil && y.sym != nil))
+	case *StructV:
+		y, ok := b.(*StructV)
+		if !ok || len(x.f) != len(y.f) {
+			return false
+		}
+		if x == y {
+			return true
+		}
+		for i := range x.f {
+			if !mergeable(x.f[i], y.f[i]) {
+				return false
+			}
+		}
+		return true
+	case *ArrayV:
+		y, ok := b.(*ArrayV)
+		if !ok || len(x.e) != len(y.e) {
+			return false
+		}
+		if x == y {
+			return true
+		}
+		for i := range x.e {
+			if !mergeable(x.e[i], y.e[i]) {
+				return false
+			}
+		}
+		return true
+	case SliceV:
+		y, ok := b.(SliceV)
+		return ok && x == y
+	case MapV:
+		y, ok := b.(MapV)
+		return ok && x == y
+	case IfaceV:
+		y, ok := b.(IfaceV)
+		if !ok {
+			return false
+		}
+		if x.t == nil || y.t == nil {
+			return x.t == nil && y.t == nil
+		}
+		return types.Identical(x.t, y.t) && mergeable(x.v, y.v)
+	case *FuncV:
+		y, ok := b.(*FuncV)
+		if !ok {
+			return false
+		}
+		if x == y {
+			return true
+		}
+		if x == nil || y == nil || x.fn != y.fn || x.intr != y.intr || len(x.env) != len(y.env) {
+			return false
+		}
+		for i := range x.env {
+			if !mergeable(x.env[i], y.env[i]) {
+				return false
+			}
+		}
+		if x.recv != nil || y.recv != nil {
+			return mergeable(x.recv, y.recv)
+		}
+		return true
+	case TupleV:
+		y, ok := b.(TupleV)
+		if !ok || len(x) != len(y) {
+			return false
+		}
+		for i := range x {
+			if !mergeable(x[i], y[i]) {
+				return false
+			}
+		}
+		return true
+	case *IterV:
+		y, ok := b.(*IterV)
+		return ok && x == y
+	}
+	return false
+}
+
+func objMergeable(a, b *Object) bool {
+	if a == b {
+		return true
+	}
+	if a.isMap != b.isMap || len(a.cells) != len(b.cells) {
+		return false
+	}
+	if a.isMap {
+		for i := range a.keys {
+			if !sameVal(a.keys[i], b.keys[i]) {
+				return false
+			}
+		}
+	}
+	for i := range a.cells {
+		if !mergeable(a.cells[i], b.cells[i]) {
+			return false
+		}
+	}
+	return true
+}
+
+// statesMergeable is the cheap pre-check of tryMerge.
+func statesMergeable(sa, sb *State, ra, rb []Value, live []bool) bool {
+	for i := range ra {
+		if live != nil && !live[i] {
+			continue
+		}
+		if ra[i] == nil && rb[i] == nil {
+			continue
+		}
+		if !mergeable(ra[i], rb[i]) {
+			return false
+		}
+	}
+	for id, oa := range sa.heap {
+		ob, inB := sb.heap[id]
+		if !inB {
+			base, ok := baseHeap[id]
+			if !ok {
+				continue
+			}
+			ob = base
+		}
+		if !objMergeable(oa, ob) {
+			return false
+		}
+	}
+	for id, ob := range sb.heap {
+		if _, inA := sa.heap[id]; inA {
+			continue
+		}
+		if base, ok := baseHeap[id]; ok && !objMergeable(base, ob) {
+			return false
+		}
+	}
+	return true
+}
+
 // tryMerge merges b into a (states and register files). Returns nil if not
 // mergeable. live tells which registers matter.
 func tryMerge(sa, sb *State, ra, rb []Value, live []bool) (*State, []Value) {
+	if !statesMergeable(sa, sb, ra, rb, live) {
+		return nil, nil
+	}
 	pc, g := mergePC(sa.pc, sb.pc)
 	regs := make([]Value, len(ra))
 	for i := range ra {
@@ -583,6 +796,14 @@ func tryMerge(sa, sb *State, ra, rb []Value, live []bool) (*State, []Value) {
 				w.s = strIte(g, w.s, sb.watch[i].s)
 			}
 			ns.watch = append(ns.watch, w)
+		}
+	}
+	if len(sa.dom) > 0 && len(sb.dom) > 0 {
+		ns.dom = map[*Term]uint64{}
+		for k, v := range sa.dom {
+			if w, ok := sb.dom[k]; ok {
+				ns.dom[k] = v | w
+			}
 		}
 	}
 	ns.pending = mergeKnown(g, sa.pending, sb.pending)
